@@ -237,6 +237,18 @@ func C11data(p *load.Program, run *report.Run) {
 					}
 				}
 			}
+			// or through the guard written once as a method: NeedSpace(k), k >= 1, error returned
+			for _, b := range send.Blocks {
+				for _, ins := range b.Instrs {
+					c, ok := ins.(*ssa.Call)
+					if !ok || len(c.Call.Args) != 2 || c.Call.Args[0] != ssa.Value(send.Params[0]) || !isSpaceHelper(c.Call.StaticCallee(), "WritePos", "len(WriteBuf)", "Flush") {
+						continue
+					}
+					if k := linOf(c.Call.Args[1]); k.ok && k.base == "" && k.k >= 1 && b.Dominates(cp.Block()) && b != cp.Block() && errNonNilReturns(c) {
+						flushed = true
+					}
+				}
+			}
 			switch {
 			case !complete:
 				fail("data-complete", key, send, "success is reachable while payload bytes remain")
